@@ -1,6 +1,504 @@
-(* SlicerFacts.v -- lemmas about Model/SlicerCosts.v *)
+(* SlicerFacts.v -- lemmas about Model/SlicerCosts.v (ContractionCosts, SliceFinder).
+   Part 1: dictionaries, list replacement, MaxCounter.
+   Part 2: ContractionCosts.__init__ and remove keep every derived field equal to its
+           from-scratch definition, and remove acts on the table as `row_remove`.
+   Part 3: the table of the tree sliced on one more index (Model/Net.v) is the
+           `row_remove` image of the table before: the two cost models agree.
+   Part 4: SliceFinder.trial / best / search for every oracle. *)
 From Coq Require Import Lia Permutation ZifyBool.
 From Ctg Require Import Base Net BaseFacts NetFacts SlicerCosts.
 Local Open Scope Z_scope.
 
-Lemma stub_true : True. Proof. exact I. Qed.
+(* ================================================================== *)
+(* Part 1a: dict ix -> Z                                               *)
+Lemma zd_get_set_same j v d : zd_get j (zd_set j v d) = Some v.
+Proof.
+  induction d as [|[k w] d IH]; cbn.
+  - rewrite Nat.eqb_refl. reflexivity.
+  - destruct (Nat.eqb_spec k j) as [->|Hn]; cbn.
+    + rewrite Nat.eqb_refl. reflexivity.
+    + destruct (Nat.eqb_spec k j); [contradiction|exact IH].
+Qed.
+
+Lemma zd_get_set_other j i v d : i <> j -> zd_get i (zd_set j v d) = zd_get i d.
+Proof.
+  intros Hij. induction d as [|[k w] d IH]; cbn.
+  - destruct (Nat.eqb_spec j i); [congruence|reflexivity].
+  - destruct (Nat.eqb_spec k j) as [->|Hn]; cbn.
+    + destruct (Nat.eqb_spec j i); [congruence|reflexivity].
+    + destruct (Nat.eqb_spec k i); [reflexivity|exact IH].
+Qed.
+
+Lemma zd_get0_add j i v d :
+  zd_get0 i (zd_add j v d) = zd_get0 i d + (if Nat.eqb i j then v else 0).
+Proof.
+  unfold zd_add. destruct (Nat.eqb_spec i j) as [->|H].
+  - unfold zd_get0 at 1. rewrite zd_get_set_same. reflexivity.
+  - unfold zd_get0 at 1. rewrite zd_get_set_other by exact H. fold (zd_get0 i d). lia.
+Qed.
+
+Lemma zd_get_del_other j i d : i <> j -> zd_get i (zd_del j d) = zd_get i d.
+Proof.
+  intros Hij. induction d as [|[k w] d IH]; cbn; [reflexivity|].
+  destruct (Nat.eqb_spec k j) as [->|Hn]; cbn.
+  - destruct (Nat.eqb_spec j i); [congruence|reflexivity].
+  - destruct (Nat.eqb_spec k i); [reflexivity|exact IH].
+Qed.
+
+Lemma zd_get0_del_other j i d : i <> j -> zd_get0 i (zd_del j d) = zd_get0 i d.
+Proof. intros H. unfold zd_get0. rewrite zd_get_del_other by exact H. reflexivity. Qed.
+
+Lemma zd_get_in_keys j d : zd_get j d <> None <-> In j (zd_keys d).
+Proof.
+  unfold zd_keys. induction d as [|[k w] d IH]; cbn; [tauto|].
+  destruct (Nat.eqb_spec k j) as [->|H].
+  - split; [auto|congruence].
+  - rewrite IH. split; [auto|intros [?|?]; [congruence|assumption]].
+Qed.
+
+Lemma zd_get_del_same j d : NoDup (zd_keys d) -> zd_get j (zd_del j d) = None.
+Proof.
+  unfold zd_keys. induction d as [|[k w] d IH]; cbn; intros ND; [reflexivity|].
+  inversion ND as [|? ? Hn ND']; subst.
+  destruct (Nat.eqb_spec k j) as [->|H]; cbn.
+  - destruct (zd_get j d) eqn:E; [|reflexivity].
+    exfalso. apply Hn. apply (proj1 (zd_get_in_keys j d)). congruence.
+  - destruct (Nat.eqb_spec k j); [contradiction|]. apply IH, ND'.
+Qed.
+
+Lemma zd_keys_del_in j i d : In i (zd_keys (zd_del j d)) -> In i (zd_keys d).
+Proof.
+  unfold zd_keys. induction d as [|[k w] d IH]; cbn; [tauto|].
+  destruct (Nat.eqb_spec k j); cbn; [auto|]. intros [?|?]; auto.
+Qed.
+
+Lemma zd_keys_del_nodup j d : NoDup (zd_keys d) -> NoDup (zd_keys (zd_del j d)).
+Proof.
+  unfold zd_keys. induction d as [|[k w] d IH]; cbn; intros ND; [constructor|].
+  inversion ND as [|? ? Hn ND']; subst.
+  destruct (Nat.eqb_spec k j); cbn; [exact ND'|].
+  constructor; [|apply IH, ND']. intros H. apply Hn. apply (zd_keys_del_in j k d), H.
+Qed.
+
+Lemma zd_keys_del_length j d : In j (zd_keys d) -> S (length (zd_del j d)) = length d.
+Proof.
+  unfold zd_keys. induction d as [|[k w] d IH]; cbn; [tauto|].
+  destruct (Nat.eqb_spec k j) as [->|H]; cbn; [reflexivity|].
+  intros [?|Hin]; [contradiction|]. rewrite IH by exact Hin. reflexivity.
+Qed.
+
+Lemma zget_del_other j i d : i <> j -> zget i (zd_del j d) = zget i d.
+Proof.
+  intros Hij. induction d as [|[k w] d IH]; cbn; [reflexivity|].
+  destruct (Nat.eqb_spec k j) as [->|Hn]; cbn.
+  - destruct (Nat.eqb_spec j i); [congruence|reflexivity].
+  - destruct (Nat.eqb_spec k i); [reflexivity|exact IH].
+Qed.
+
+Lemma zd_get_zget j d v : zd_get j d = Some v -> zget j d = v.
+Proof.
+  induction d as [|[k w] d IH]; cbn; [congruence|].
+  destruct (Nat.eqb_spec k j); [congruence|exact IH].
+Qed.
+
+Lemma memb_cons j a l : memb j (a :: l) = Nat.eqb j a || memb j l.
+Proof. reflexivity. Qed.
+
+Lemma fold_zd_add_get (f : ix -> Z) l : forall fr j, NoDup l ->
+  zd_get0 j (fold_left (fun fr o => zd_add o (f o) fr) l fr)
+  = zd_get0 j fr + (if memb j l then f j else 0).
+Proof.
+  induction l as [|a l IH]; intros fr j ND; cbn [fold_left].
+  - cbn. lia.
+  - inversion ND as [|? ? Hn ND']; subst. rewrite IH by exact ND'.
+    rewrite zd_get0_add, memb_cons.
+    destruct (Nat.eqb_spec j a) as [->|H]; cbn [orb].
+    + assert (E : memb a l = false) by (apply memb_false, Hn). rewrite E. lia.
+    + destruct (memb j l); lia.
+Qed.
+
+(* ---- wdict ---- *)
+Lemma wh_get_add_same j i d :
+  wh_get j (wh_add j i d) = Some (let v := wh_get0 j d in if memb i v then v else v ++ [i]).
+Proof.
+  unfold wh_get0. induction d as [|[k w] d IH]; cbn.
+  - rewrite Nat.eqb_refl. reflexivity.
+  - destruct (Nat.eqb_spec k j) as [->|Hn]; cbn.
+    + rewrite Nat.eqb_refl. reflexivity.
+    + destruct (Nat.eqb_spec k j); [contradiction|exact IH].
+Qed.
+
+Lemma wh_get_add_other j j' i d : j' <> j -> wh_get j' (wh_add j i d) = wh_get j' d.
+Proof.
+  intros Hij. induction d as [|[k w] d IH]; cbn.
+  - destruct (Nat.eqb_spec j j'); [congruence|reflexivity].
+  - destruct (Nat.eqb_spec k j) as [->|Hn]; cbn.
+    + destruct (Nat.eqb_spec j j'); [congruence|reflexivity].
+    + destruct (Nat.eqb_spec k j'); [reflexivity|exact IH].
+Qed.
+
+Lemma wh_get_del_other j i d : i <> j -> wh_get i (wh_del j d) = wh_get i d.
+Proof.
+  intros Hij. induction d as [|[k w] d IH]; cbn; [reflexivity|].
+  destruct (Nat.eqb_spec k j) as [->|Hn]; cbn.
+  - destruct (Nat.eqb_spec j i); [congruence|reflexivity].
+  - destruct (Nat.eqb_spec k i); [reflexivity|exact IH].
+Qed.
+
+(* ================================================================== *)
+(* Part 1b: products of dimensions                                      *)
+Lemma size_of_pos sd L : (forall j, 0 < zget j sd) -> 0 < size_of sd L.
+Proof.
+  intros Hp. induction L as [|a L IH]; [reflexivity|].
+  rewrite size_of_cons. specialize (Hp a). nia.
+Qed.
+
+Lemma filter_neq_id x L : ~ In x L -> filter (fun j => negb (Nat.eqb j x)) L = L.
+Proof.
+  induction L as [|a L IH]; cbn; [reflexivity|]. intros H.
+  destruct (Nat.eqb_spec a x) as [->|Hn]; cbn; [tauto|]. rewrite IH by tauto. reflexivity.
+Qed.
+
+Lemma filter_neq_in x j L : In j (filter (fun j => negb (Nat.eqb j x)) L) <-> In j L /\ j <> x.
+Proof.
+  rewrite filter_In. destruct (Nat.eqb_spec j x); cbn; intuition congruence.
+Qed.
+
+Lemma memb_filter_neq x j L : j <> x -> memb j (filter (fun j => negb (Nat.eqb j x)) L) = memb j L.
+Proof.
+  intros H. destruct (memb j L) eqn:E.
+  - apply memb_In. apply filter_neq_in. split; [apply memb_In, E|exact H].
+  - apply memb_false. intros Hin. apply filter_neq_in in Hin. apply memb_false in E. tauto.
+Qed.
+
+Lemma memb_filter_self x L : memb x (filter (fun j => negb (Nat.eqb j x)) L) = false.
+Proof. apply memb_false. intros H. apply filter_neq_in in H. tauto. Qed.
+
+Lemma size_of_split x sd L : NoDup L -> In x L ->
+  size_of sd L = size_of sd (filter (fun j => negb (Nat.eqb j x)) L) * zget x sd.
+Proof.
+  intros ND Hin. rewrite (size_of_filter_out x sd L ND).
+  assert (E : memb x L = true) by (apply memb_In, Hin). rewrite E. reflexivity.
+Qed.
+
+Lemma size_of_div x sd L : NoDup L -> In x L -> 0 < zget x sd ->
+  size_of sd L / zget x sd = size_of sd (filter (fun j => negb (Nat.eqb j x)) L).
+Proof.
+  intros ND Hin Hp. rewrite (size_of_split x sd L ND Hin). apply Z.div_mul. lia.
+Qed.
+
+Lemma size_of_ext sd sd' L : (forall j, In j L -> zget j sd' = zget j sd) -> size_of sd' L = size_of sd L.
+Proof.
+  intros H. induction L as [|a L IH]; [reflexivity|].
+  rewrite !size_of_cons, H by (left; reflexivity). rewrite IH; [reflexivity|].
+  intros j Hj. apply H. right; exact Hj.
+Qed.
+
+Lemma size_of_del x sd L : ~ In x L -> size_of (zd_del x sd) L = size_of sd L.
+Proof.
+  intros H. apply size_of_ext. intros j Hj. apply zget_del_other. intros ->. contradiction.
+Qed.
+
+Lemma NoDup_filter_neq x (L : list ix) : NoDup L -> NoDup (filter (fun j => negb (Nat.eqb j x)) L).
+Proof. apply NoDup_filter. Qed.
+
+(* the arithmetic fact behind the incremental update of the reductions *)
+Lemma red_div fl d dj m : 0 < d -> 0 < dj -> fl = m * dj * d ->
+  (fl - fl / dj) / d = fl / d - (fl / d) / dj.
+Proof.
+  intros Hd Hdj ->.
+  replace (m * dj * d) with ((m * d) * dj) at 2 by ring.
+  rewrite (Z.div_mul (m * d) dj) by lia.
+  rewrite (Z.div_mul (m * dj) d) by lia.
+  rewrite (Z.div_mul m dj) by lia.
+  replace (m * dj * d - m * d) with ((m * dj - m) * d) by ring.
+  rewrite Z.div_mul by lia. reflexivity.
+Qed.
+
+(* two distinct members of a duplicate-free list: the product has both factors *)
+Lemma size_of_two x j sd L : NoDup L -> In x L -> In j L -> j <> x ->
+  exists m, size_of sd L = m * zget j sd * zget x sd.
+Proof.
+  intros ND Hx Hj Hne.
+  rewrite (size_of_split x sd L ND Hx).
+  set (L' := filter (fun j => negb (Nat.eqb j x)) L).
+  assert (ND' : NoDup L') by (apply NoDup_filter, ND).
+  assert (Hj' : In j L') by (apply filter_neq_in; tauto).
+  rewrite (size_of_split j sd L' ND' Hj').
+  eexists. reflexivity.
+Qed.
+
+(* ================================================================== *)
+(* Part 1c: replacing one element of a list                             *)
+Definition replace_at {A} (i : nat) (x : A) (l : list A) : list A := firstn i l ++ x :: skipn (S i) l.
+
+Lemma replace_at_decomp {A} (l : list A) i a : nth_error l i = Some a ->
+  exists l1 l2, l = l1 ++ a :: l2 /\ length l1 = i /\ forall x, replace_at i x l = l1 ++ x :: l2.
+Proof.
+  intros H. destruct (nth_error_split l i H) as (l1 & l2 & -> & Hl).
+  exists l1, l2. split; [reflexivity|]. split; [exact Hl|]. intros x. unfold replace_at. subst i.
+  rewrite firstn_app, Nat.sub_diag, firstn_all2 by lia. cbn [firstn]. rewrite app_nil_r.
+  f_equal. f_equal.
+  clear H. induction l1 as [|b l1 IH]; [reflexivity|]. cbn [length app skipn] in *. exact IH.
+Qed.
+
+Lemma replace_at_length {A} (l : list A) i a x : nth_error l i = Some a ->
+  length (replace_at i x l) = length l.
+Proof.
+  intros H. destruct (replace_at_decomp l i a H) as (l1 & l2 & -> & _ & E). rewrite E, !app_length. reflexivity.
+Qed.
+
+Lemma nth_error_replace_at {A} (l : list A) i a x k : nth_error l i = Some a ->
+  nth_error (replace_at i x l) k = if Nat.eqb k i then Some x else nth_error l k.
+Proof.
+  intros H. destruct (replace_at_decomp l i a H) as (l1 & l2 & -> & Hl & E). rewrite E. subst i.
+  destruct (Nat.eqb_spec k (length l1)) as [->|Hne].
+  - rewrite nth_error_app2, Nat.sub_diag by lia. reflexivity.
+  - destruct (Nat.lt_ge_cases k (length l1)) as [Hlt|Hge].
+    + rewrite !nth_error_app1 by exact Hlt. reflexivity.
+    + rewrite !nth_error_app2 by exact Hge.
+      destruct (k - length l1)%nat eqn:Ek; [lia|reflexivity].
+Qed.
+
+Lemma zsum_map_replace {A} (f : A -> Z) (l : list A) i a x : nth_error l i = Some a ->
+  zsum (map f (replace_at i x l)) = zsum (map f l) - f a + f x.
+Proof.
+  intros H. destruct (replace_at_decomp l i a H) as (l1 & l2 & -> & _ & E). rewrite E.
+  rewrite !map_app, !zsum_app. cbn [map]. rewrite !zsum_cons. lia.
+Qed.
+
+Lemma Forall_replace_at {A} (P : A -> Prop) (l : list A) i a x : nth_error l i = Some a ->
+  Forall P l -> P x -> Forall P (replace_at i x l).
+Proof.
+  intros H HF Hx. destruct (replace_at_decomp l i a H) as (l1 & l2 & -> & _ & E). rewrite E.
+  apply Forall_app in HF. destruct HF as [H1 H2]. inversion H2; subst.
+  apply Forall_app. split; [exact H1|]. constructor; assumption.
+Qed.
+
+Lemma count_occ_map_replace {A} (f : A -> Z) (l : list A) i a x y : nth_error l i = Some a ->
+  (count_occ Z.eq_dec (map f (replace_at i x l)) y + (if Z.eqb y (f a) then 1 else 0)
+   = count_occ Z.eq_dec (map f l) y + (if Z.eqb y (f x) then 1 else 0))%nat.
+Proof.
+  intros H. destruct (replace_at_decomp l i a H) as (l1 & l2 & -> & _ & E). rewrite E.
+  rewrite !map_app, !count_occ_app. cbn [map count_occ].
+  destruct (Z.eq_dec (f x) y), (Z.eq_dec (f a) y), (Z.eqb_spec y (f a)), (Z.eqb_spec y (f x)); lia.
+Qed.
+
+Lemma nth_error_ext {A} (l1 l2 : list A) : (forall k, nth_error l1 k = nth_error l2 k) -> l1 = l2.
+Proof.
+  revert l2. induction l1 as [|a l1 IH]; intros [|b l2] H.
+  - reflexivity.
+  - specialize (H 0%nat). discriminate.
+  - specialize (H 0%nat). discriminate.
+  - f_equal.
+    + specialize (H 0%nat). cbn in H. congruence.
+    + apply IH. intros k. apply (H (S k)).
+Qed.
+
+(* ================================================================== *)
+(* Part 1d: utils.MaxCounter                                            *)
+Definition cn_keys (c : list (Z * nat)) : list Z := map fst c.
+
+Lemma cn_get_set_same x v c : cn_get x (cn_set x v c) = v.
+Proof.
+  induction c as [|[k w] c IH]; cbn.
+  - rewrite Z.eqb_refl. reflexivity.
+  - destruct (Z.eqb_spec k x) as [->|Hn]; cbn.
+    + rewrite Z.eqb_refl. reflexivity.
+    + destruct (Z.eqb_spec k x); [contradiction|exact IH].
+Qed.
+
+Lemma cn_get_set_other x y v c : y <> x -> cn_get y (cn_set x v c) = cn_get y c.
+Proof.
+  intros Hne. induction c as [|[k w] c IH]; cbn.
+  - destruct (Z.eqb_spec x y); [congruence|reflexivity].
+  - destruct (Z.eqb_spec k x) as [->|Hn]; cbn.
+    + destruct (Z.eqb_spec x y); [congruence|reflexivity].
+    + destruct (Z.eqb_spec k y); [reflexivity|exact IH].
+Qed.
+
+Lemma cn_get_del_other x y c : y <> x -> cn_get y (cn_del x c) = cn_get y c.
+Proof.
+  intros Hne. induction c as [|[k w] c IH]; cbn; [reflexivity|].
+  destruct (Z.eqb_spec k x) as [->|Hn]; cbn.
+  - destruct (Z.eqb_spec x y); [congruence|reflexivity].
+  - destruct (Z.eqb_spec k y); [reflexivity|exact IH].
+Qed.
+
+Lemma cn_get_notin x c : ~ In x (cn_keys c) -> cn_get x c = 0%nat.
+Proof.
+  unfold cn_keys. induction c as [|[k w] c IH]; cbn; [reflexivity|]. intros H.
+  destruct (Z.eqb_spec k x); [tauto|]. apply IH. tauto.
+Qed.
+
+Lemma cn_keys_set x v c k : In k (cn_keys (cn_set x v c)) <-> k = x \/ In k (cn_keys c).
+Proof.
+  unfold cn_keys. induction c as [|[k' w] c IH]; cbn.
+  - intuition.
+  - destruct (Z.eqb_spec k' x) as [->|Hn]; cbn; [intuition|]. rewrite IH. intuition.
+Qed.
+
+Lemma cn_keys_set_nodup x v c : NoDup (cn_keys c) -> NoDup (cn_keys (cn_set x v c)).
+Proof.
+  unfold cn_keys. induction c as [|[k w] c IH]; cbn; intros ND.
+  - constructor; [intros []|constructor].
+  - inversion ND as [|? ? Hn ND']; subst.
+    destruct (Z.eqb_spec k x) as [->|Hne]; cbn; [constructor; assumption|].
+    constructor; [|apply IH, ND'].
+    intros H. apply (cn_keys_set x v c k) in H. destruct H as [->|H]; [congruence|]. apply Hn, H.
+Qed.
+
+Lemma cn_keys_del x c k : NoDup (cn_keys c) -> (In k (cn_keys (cn_del x c)) <-> k <> x /\ In k (cn_keys c)).
+Proof.
+  unfold cn_keys. induction c as [|[k' w] c IH]; cbn; intros ND; [tauto|].
+  inversion ND as [|? ? Hn ND']; subst.
+  destruct (Z.eqb_spec k' x) as [->|Hne]; cbn.
+  - split; [|intuition congruence]. intros H. split; [|right; exact H]. intros ->. apply Hn, H.
+  - rewrite (IH ND'). split; [|intuition congruence]. intros [->|[H1 H2]]; [split; [exact Hne|left; reflexivity]|tauto].
+Qed.
+
+Lemma cn_keys_del_nodup x c : NoDup (cn_keys c) -> NoDup (cn_keys (cn_del x c)).
+Proof.
+  unfold cn_keys. induction c as [|[k w] c IH]; cbn; intros ND; [constructor|].
+  inversion ND as [|? ? Hn ND']; subst.
+  destruct (Z.eqb_spec k x); cbn; [exact ND'|].
+  constructor; [|apply IH, ND']. intros H. apply (cn_keys_del x c k ND') in H. apply Hn, H.
+Qed.
+
+Definition cn_pos (c : list (Z * nat)) : Prop := forall kv, In kv c -> (0 < snd kv)%nat.
+
+Lemma cn_pos_set x v c : (0 < v)%nat -> cn_pos c -> cn_pos (cn_set x v c).
+Proof.
+  intros Hv. induction c as [|[k w] c IH]; cbn; intros Hp kv.
+  - intros [<-|[]]. exact Hv.
+  - destruct (Z.eqb_spec k x) as [->|H]; cbn.
+    + intros [<-|Hin]; [exact Hv|apply Hp; right; exact Hin].
+    + intros [<-|Hin]; [apply (Hp (k, w)); left; reflexivity|].
+      apply IH; [|exact Hin]. intros kv' Hkv'. apply Hp. right; exact Hkv'.
+Qed.
+
+Lemma cn_pos_del x c : cn_pos c -> cn_pos (cn_del x c).
+Proof.
+  induction c as [|[k w] c IH]; cbn; intros Hp kv; [intros []|].
+  destruct (Z.eqb_spec k x); cbn.
+  - intros Hin. apply Hp. right; exact Hin.
+  - intros [<-|Hin]; [apply (Hp (k, w)); left; reflexivity|].
+    apply IH; [|exact Hin]. intros kv' Hkv'. apply Hp. right; exact Hkv'.
+Qed.
+
+Lemma cn_get_pos x c : cn_pos c -> (In x (cn_keys c) <-> (0 < cn_get x c)%nat).
+Proof.
+  unfold cn_keys. induction c as [|[k w] c IH]; cbn; intros Hp; [lia|].
+  assert (Hp' : cn_pos c) by (intros kv Hkv; apply Hp; right; exact Hkv).
+  destruct (Z.eqb_spec k x) as [->|Hne].
+  - split; [|auto]. intros _. apply (Hp (x, w)). left; reflexivity.
+  - rewrite <- (IH Hp'). split; [intros [?|?]; [congruence|assumption]|auto].
+Qed.
+
+Definition is_max_opt (o : option Z) (l : list Z) : Prop :=
+  match o with
+  | None => l = []
+  | Some m => In m l /\ forall x, In x l -> x <= m
+  end.
+
+Lemma is_max_opt_unique o1 o2 l : is_max_opt o1 l -> is_max_opt o2 l -> o1 = o2.
+Proof.
+  destruct o1 as [m1|], o2 as [m2|]; cbn.
+  - intros [I1 H1] [I2 H2]. f_equal. specialize (H1 _ I2). specialize (H2 _ I1). lia.
+  - intros [I1 _] ->. destruct I1.
+  - intros -> [I2 _]. destruct I2.
+  - reflexivity.
+Qed.
+
+Lemma is_max_opt_same_set o l l' : (forall x, In x l <-> In x l') -> is_max_opt o l -> is_max_opt o l'.
+Proof.
+  intros H. destruct o as [m|]; cbn.
+  - intros [I Hm]. split; [apply H, I|]. intros x Hx. apply Hm, H, Hx.
+  - intros ->. destruct l' as [|a l']; [reflexivity|]. exfalso. apply (proj2 (H a)). left; reflexivity.
+Qed.
+
+Lemma fold_max_spec l : forall a,
+  let m := fold_left Z.max l a in (m = a \/ In m l) /\ a <= m /\ forall x, In x l -> x <= m.
+Proof.
+  intros a. change (fold_left Z.max l a) with (zmax_list l a). cbn zeta. split; [|split].
+  - apply zmax_list_attained.
+  - rewrite zmax_list_acc. lia.
+  - intros x Hx. apply zmax_list_ge, Hx.
+Qed.
+
+Lemma list_max_opt_spec l : is_max_opt (list_max_opt l) l.
+Proof.
+  destruct l as [|a l]; cbn; [reflexivity|].
+  destruct (fold_max_spec l a) as ([E|Hin] & Hle & Hall).
+  - split; [left; symmetry; exact E|]. intros x [<-|Hx]; [exact Hle|apply Hall, Hx].
+  - split; [right; exact Hin|]. intros x [<-|Hx]; [exact Hle|apply Hall, Hx].
+Qed.
+
+Lemma cn_max_spec c : is_max_opt (cn_max c) (cn_keys c).
+Proof.
+  destruct c as [|[k w] c]; [reflexivity|].
+  exact (list_max_opt_spec (cn_keys ((k, w) :: c))).
+Qed.
+
+(* the invariant: f is the multiset (as a count function) held by the counter *)
+Definition mc_inv (m : maxc) (f : Z -> nat) : Prop :=
+  NoDup (cn_keys (mc_c m)) /\ cn_pos (mc_c m) /\
+  (forall x, cn_get x (mc_c m) = f x) /\ is_max_opt (mc_max m) (cn_keys (mc_c m)).
+
+Lemma mc_inv_empty : mc_inv mc_empty (fun _ => 0%nat).
+Proof. repeat split; cbn; try constructor. intros kv []. Qed.
+
+Lemma mc_inv_ext m f g : (forall x, f x = g x) -> mc_inv m f -> mc_inv m g.
+Proof. intros H (A & B & C & D). repeat split; try assumption. intros x. rewrite <- H. apply C. Qed.
+
+Lemma mc_inv_add x m f : mc_inv m f ->
+  mc_inv (mc_add x m) (fun y => if Z.eqb y x then S (f y) else f y).
+Proof.
+  intros (ND & Pos & Cnt & Mx). unfold mc_add. repeat split; cbn [mc_c mc_max].
+  - apply cn_keys_set_nodup, ND.
+  - apply cn_pos_set; [lia|exact Pos].
+  - intros y. destruct (Z.eqb_spec y x) as [->|Hne].
+    + rewrite cn_get_set_same, Cnt. reflexivity.
+    + rewrite cn_get_set_other by exact Hne. apply Cnt.
+  - destruct (mc_max m) as [y|]; cbn in *.
+    + destruct Mx as [Iy Hy]. split.
+      * apply cn_keys_set. destruct (Z.max_spec y x) as [[_ ->]|[_ ->]]; auto.
+      * intros k Hk. apply cn_keys_set in Hk. destruct Hk as [->|Hk]; [lia|]. specialize (Hy k Hk). lia.
+    + split; [apply cn_keys_set; left; reflexivity|].
+      intros k Hk. apply cn_keys_set in Hk. destruct Hk as [->|Hk]; [lia|].
+      unfold cn_keys in *. rewrite Mx in Hk. destruct Hk.
+Qed.
+
+Lemma mc_inv_discard x m f : mc_inv m f -> (0 < f x)%nat ->
+  mc_inv (mc_discard x m) (fun y => if Z.eqb y x then pred (f y) else f y).
+Proof.
+  intros (ND & Pos & Cnt & Mx) Hx. unfold mc_discard.
+  assert (Hin : In x (cn_keys (mc_c m))) by (apply cn_get_pos; [exact Pos|rewrite Cnt; exact Hx]).
+  destruct (Nat.leb_spec (cn_get x (mc_c m)) 1) as [Hle|Hgt]; repeat split; cbn [mc_c mc_max].
+  - apply cn_keys_del_nodup, ND.
+  - apply cn_pos_del, Pos.
+  - intros y. destruct (Z.eqb_spec y x) as [->|Hne].
+    + rewrite cn_get_notin; [rewrite <- Cnt; lia|].
+      intros H. apply (cn_keys_del x (mc_c m) x ND) in H. tauto.
+    + rewrite cn_get_del_other by exact Hne. apply Cnt.
+  - destruct (mc_max m) as [y|]; cbn in Mx.
+    + destruct Mx as [Iy Hy]. destruct (Z.eqb_spec x y) as [->|Hne].
+      * apply cn_max_spec.
+      * cbn. split.
+        -- apply (cn_keys_del x (mc_c m) y ND). split; [congruence|exact Iy].
+        -- intros k Hk. apply (cn_keys_del x (mc_c m) k ND) in Hk. apply Hy, Hk.
+    + unfold cn_keys in *. rewrite Mx in Hin. destruct Hin.
+  - apply cn_keys_set_nodup, ND.
+  - apply cn_pos_set; [lia|exact Pos].
+  - intros y. destruct (Z.eqb_spec y x) as [->|Hne].
+    + rewrite cn_get_set_same, <- Cnt. lia.
+    + rewrite cn_get_set_other by exact Hne. apply Cnt.
+  - apply (is_max_opt_same_set _ (cn_keys (mc_c m))); [|exact Mx].
+    intros k. rewrite cn_keys_set. split; [auto|intros [->|?]; assumption].
+Qed.
+
+Lemma mc_inv_max m l : mc_inv m (count_occ Z.eq_dec l) -> is_max_opt (mc_max m) l.
+Proof.
+  intros (ND & Pos & Cnt & Mx). apply (is_max_opt_same_set _ (cn_keys (mc_c m))); [|exact Mx].
+  intros x. rewrite (cn_get_pos x _ Pos), Cnt. symmetry. apply count_occ_In.
+Qed.
